@@ -294,7 +294,16 @@ def gen_stream(rng, tree):
     parts = valid_session(rng, tree, rng.range(1, 8))
     stream = MAGIC + b"".join(p for p, _ in parts)
     desc = [d for _, d in parts]
-    kind = rng.below(16)
+    kind = rng.below(18)
+    if kind >= 16:
+        # a well-framed request whose body is LONGER than its CBOR item (the length prefix covers the padding): the
+        # whole frame must be consumed; the padding — zeros, or the bytes of a complete Put frame — is never a request
+        inner = rng.pick([req_list(), req_get(rng.pick(PATHS12)), req_get("../x"), req_hello()])
+        e = bytes.fromhex(blake3_hex([b""])[0])
+        pad = rng.pick([b"\x00" * 4, b"\x00" * 9, frame(req_put("smuggled", None, 0, e)), frame(req_delete(sorted(tree)[0], None)) if tree else b"\xf6"])
+        k = rng.below(len(parts) + 1)
+        return (MAGIC + b"".join(p for p, _ in parts[:k]) + frame(inner + pad) + b"".join(p for p, _ in parts[k:]), "padded-frame",
+                desc[:k] + ["padded frame"] + desc[k:])
     if kind >= 14 and tree:
         # Put below a path that is a regular FILE: the handler hits a file-system error. The content that
         # follows is itself a well-formed Delete frame: it must never be interpreted as a request.
@@ -562,7 +571,7 @@ def run(pid, tier, seed, rundir, model_run):
         res["broken"].append(f"{pid}/corr: model and implementation disagree on {ndis} of {len(ops)} cases")
     res.update(evaluations=len(ops), distinct_nontrivial=len(set(ops)), n_disagreements=ndis, n_oracle_failures=len(res["violations"]),
                rule=("byte strings fed to a real `copia serve` under ulimit -v and a timeout: valid sessions over {Hello, List, Get, Put (right/wrong hash, refused path), Delete, Bye} and their "
-                     "mutations (cut at a random point, banner before the magic, bit flip, length prefixes at/around 2^20 and 2^32-1, duplicated/reordered frames, garbage and hostile-CBOR bodies, "
+                     "mutations (cut at a random point, banner before the magic, bit flip, length prefixes at/around 2^20 and 2^32-1, duplicated/reordered frames, garbage and hostile-CBOR bodies, frames padded beyond their CBOR item (incl. a smuggled Put frame as padding), "
                      "Put lengths above/below the content, partial magic, random bytes); replies, exit status and the resulting tree compared with the model. Distinct = distinct streams."
                      if pid == "C12" else
                      "path strings from components {.., ., empty, names, names containing .., 300-char names} × separators / and // × leading/trailing slash, one per session; each path is sent as Get, "
